@@ -162,6 +162,18 @@ def run(ctx):
         ok = roots == {('local', 'buffer')} and not any(call_matches(t, r'Index<.*>>::index$|<impl \[T\]>::(get|split_at|chunks|first_chunk|split)') for pos, t in cb.iter_calls())
     C.check(ok, 'C02-SIB-header', 'check_buffer|whole-buffer', 'check_buffer does not hand its whole input to the header probe (a truncated or re-sliced view can make the probe reject what the loader accepts)',
             sample={'fn': 'check_buffer', 'parser_input': 'the buffer parameter itself'})
+    # ... and returns the probe's verdict, nothing else: no path of check_buffer produces its own `false` (a pre-check that rejects
+    # what the lexer would skip - a byte order mark, leading white space - makes the probe disagree with the loader)
+    own = []
+    for pos, st in cb.iter_stmts():
+        if st['k'] == 'assign' and st['dst']['l'] == 0 and not st['dst']['p']:
+            ogs = origins(cb, st['rv']['o']) if st['rv']['k'] in ('use', 'cast') else [('const', st['rv'])]
+            if not ogs or any(og[0] in ('const', 'param', 'place') or not (isinstance(og[1], dict) and og[1].get('k') == 'call' and call_matches(og[1], r'check_arxml_header$')) for og in ogs):
+                own.append(pos)
+    tails = [pos for pos, t in cb.iter_calls() if t['dst']['l'] == 0 and not t['dst']['p']]
+    C.check(not own and all(call_matches(cb.blocks[p_[0]]['term'], r'check_arxml_header$') for p_ in tails) and (bool(tails) or any(True for pos, st in cb.iter_stmts() if st['k'] == 'assign' and st['dst']['l'] == 0)),
+            'C02-SIB-header', 'check_buffer|returns-the-probe-verdict', 'check_buffer decides on its own (a return value that is not the result of the header probe): a buffer that the loader accepts can be rejected before the probe has looked at it',
+            cb.where(own[0]) if own else '%s:%d' % (cb.file, cb.line), sample={'fn': 'check_buffer', 'result': 'parser.check_arxml_header()'})
     return C.finish('Closed-world enumeration of the panic-capable operations reachable from the loader entry points (MIR Assert terminators + a table of panicking '
                     'library entry points), each discharged automatically or by a reviewed guard; loop-progress and recursion facts; provenance of error line numbers; '
                     'sibling agreement of the header probe with the loader prefix. Does not prove the reviewed guards for all byte strings.')
